@@ -100,6 +100,24 @@ func (x *Exec) ghostCallSeq(st *State, cls string, i string) string {
 
 // slotType finds the static type of a call-class slot from declared call classes.
 func (prog *Program) slotType(cls string, ret bool, j int) types.Type {
+	if strings.HasPrefix(cls, "yaml.Unmarshal:") {
+		// see mYamlUnmarshal: (string) -> (error, decoded value)
+		switch {
+		case !ret && j == 0:
+			return stringT
+		case ret && j == 0:
+			return errorT()
+		case ret && (j == 1 || j == 2):
+			for _, p := range prog.All {
+				if p.Types != nil && p.Types.Name() == "main" {
+					if t, err := prog.resolveType(strings.TrimPrefix(cls, "yaml.Unmarshal:"), p.Types); err == nil {
+						return t
+					}
+				}
+			}
+		}
+		return nil
+	}
 	if _, ok := prog.classSigs[cls]; !ok && strings.HasPrefix(cls, "func:") {
 		// function-valued struct fields "func:pkg.Type.field": slot 0 is the function value itself
 		parts := strings.Split(strings.TrimPrefix(cls, "func:"), ".")
